@@ -123,7 +123,7 @@ def main():
         for name in sorted(os.listdir(SEEDED)):
             if not os.path.exists(os.path.join(SEEDED, name, "meta.json")):
                 continue
-            if only and not name.startswith(only):
+            if only and only not in name:
                 continue
             r = run(name, tier)
             res[name] = bool(r and r[0])
